@@ -228,7 +228,7 @@ Inductive pobs :=
 | OPath (snap : res) (map_ : res)     (* the snapshot's answer; the map's answer at snapshot time *)
 | OMut (raised : bool) (after : snode).  (* did it raise; the snapshot's structure afterwards *)
 
-Record C17_case := CASE {
+Record C17_snap := CASE {
   c_tree : rtree;                (* the map at snapshot time (observed structure) *)
   c_built : bool;                (* get_static_map returned *)
   c_dump : snode;                (* structure of the snapshot as observed *)
@@ -269,7 +269,7 @@ Definition probe_ok (t : rtree) (sn dump : snode) (pr : probe) (ob : pobs) : boo
   | _, _ => false
   end.
 
-Definition accepts (c : C17_case) : bool :=
+Definition snap_accepts (c : C17_snap) : bool :=
   match build (c_tree c) with
   | Some sn =>
       c_built c && sn_match (c_dump c) sn &&
@@ -315,10 +315,10 @@ Definition probe_holds (dump : snode) (pr : probe) (ob : pobs) : bool :=
   | _, _ => false
   end.
 
-Definition holds_b (c : C17_case) : bool :=
+Definition snap_holds_b (c : C17_snap) : bool :=
   c_built c && mirrors (c_tree c) (c_dump c) &&
   forallb (fun '(pr, ob) => probe_holds (c_dump c) pr ob) (c_probes c).
-Definition holds (c : C17_case) : Prop := holds_b c = true.
+Definition snap_holds (c : C17_snap) : Prop := snap_holds_b c = true.
 
 (* ---- input domain --------------------------------------------------------------------------- *)
 (* members of every snapshot object (dir() of the snapshot of an empty map,
@@ -357,8 +357,24 @@ Definition probe_wf (pr : probe) : bool :=
   | PDel p _ => forallb name_ok p
   end.
 
-Definition wf_b (c : C17_case) : bool :=
+Definition snap_wf_b (c : C17_snap) : bool :=
   wf_tree (c_tree c) && forallb (fun x => probe_wf (fst x)) (c_probes c).
+
+(* ---- a case: a sequence of snapshots of one live map ------------------------------------------ *)
+(* The harness builds a map, takes a snapshot, probes it, modifies the live
+   map (at any depth, through the root with composed keys or directly on
+   sub-maps, clear and layer insertion included), takes another snapshot,
+   probes both, and so on.  Each element records one snapshot: the structure
+   of the live map when get_static_map() was called, the structure of the
+   snapshot, and every probe made on THAT snapshot - also those made after
+   later modifications of the live map - with the map's answer at that
+   snapshot's time.  get_static_map is a function of the map as it is when
+   called: the model builds each snapshot afresh from its tree. *)
+Definition C17_case := list C17_snap.
+Definition accepts (c : C17_case) : bool := forallb snap_accepts c.
+Definition holds_b (c : C17_case) : bool := forallb snap_holds_b c.
+Definition holds (c : C17_case) : Prop := holds_b c = true.
+Definition wf_b (c : C17_case) : bool := forallb snap_wf_b c.
 Definition known_b (c : C17_case) : bool := false.
 
 Definition bit (b : bool) (n : nat) : nat := if b then n else 0%nat.
